@@ -67,7 +67,7 @@ class TableNode(BaseNode):
             if len(row)>ncols or len(row)<ncols:
                 raise Exception(f"Number of header nodes does not match number of table columns: {ncols} != {len(row)}")
             for c in range(ncols):
-                if table[c].dimension:
+                if table[c].dimension or table[c].keyword=='bool':
                     table[c].value_raw.append(json.loads(row[c]))
                 else:
                     table[c].value_raw.append(row[c])
